@@ -161,6 +161,11 @@ def gen_searchspec(ch, cfg: dict) -> SearchSpec:
         items.append(("lit", "|"))
     for k in range(1, n_gen + 1):
         items.append(("nt", "g_%d" % k))
+    # two records of one shape, each holding a parameterless generated field with inner structure;
+    # an equality constraint makes the repair step copy one record into the other
+    with_grec = bool(n_gen) and ch.coin(cfg.get("gen_record_rate", 0.45), "spec", "gen-record")
+    if with_grec:
+        items += [("nt", "hd"), ("lit", ";"), ("nt", "tl"), ("lit", "!")]
     n_dep = ch.weighted([4, 3, 2], "spec", "ndep") if cfg.get("generators", True) else 0
     for k in range(1, n_dep + 1):
         items.append(("nt", "d_%d" % k))
@@ -209,9 +214,22 @@ def gen_searchspec(ch, cfg: dict) -> SearchSpec:
         s.rules["it_%d" % k] = ("rx", r"[a-d]", "l")
     for k in range(1, n_gen + 1):
         name = "g_%d" % k
-        s.rules[name] = ("rx", r"[0-9]{2,4}", "d")
+        if ch.coin(0.5, "spec", "gen-inner-structure"):
+            s.rules[name] = ("rep", ("nt", "dg"), 2, 4)
+            s.rules["dg"] = ("rx", r"[0-9]", "d")
+        else:
+            s.rules[name] = ("rx", r"[0-9]{2,4}", "d")
         s.generators[name] = ("_vb.gen('%s')" % name, ())
         s.gen_fields.append(name)
+    if with_grec:
+        s.rules["hd"] = ("nt", "rec")
+        s.rules["tl"] = ("nt", "rec")
+        s.rules["rec"] = ("cat", (("nt", "gr"), ("lit", ":"), ("nt", "nm")))
+        s.rules["gr"] = ("rep", ("nt", "dg"), 2, 4)
+        s.rules["dg"] = ("rx", r"[0-9]", "d")
+        s.rules["nm"] = ("rx", r"[a-c]{1,2}", "l")
+        s.generators["gr"] = ("_vb.gen('gr')", ())
+        s.gen_fields.append("gr")
     for k in range(1, n_dep + 1):
         # a generator with arguments: the argument symbols are parameter-only (not derived from <start>)
         name = "d_%d" % k
@@ -243,6 +261,9 @@ def gen_searchspec(ch, cfg: dict) -> SearchSpec:
             s.cons.append({"text": "where " + text, "names": [], "pred": pred, "kind": kind})
         else:
             s.cons.append({"text": "where " + text, "names": names, "pred": (lambda m, names=names, fn=fn: _all(m, names, fn)), "kind": kind})
+    if with_grec:
+        s.cons.append({"text": "where str(<hd>) == str(<tl>)", "names": ["hd", "tl"], "pred": (lambda m: _all(m, ["hd", "tl"], lambda a, b: a == b)), "kind": "eq-generator-record"})
+        s.h += 1
     # a module-level Python name read by one constraint is also used as the loop variable of a
     # comprehension in another constraint of the same spec (two sites that each look fine alone)
     kinds_ = {c["kind"] for c in s.cons}
